@@ -3,6 +3,7 @@
 //! The slowlog is used to track commands that exceed a configurable execution time threshold.
 //! It helps identify performance bottlenecks in production systems.
 
+use crate::storage::commands::RedisInt;
 use std::collections::VecDeque;
 use std::sync::{Arc, Mutex};
 use std::time::{Duration, SystemTime, UNIX_EPOCH};
@@ -188,7 +189,7 @@ pub fn handle_slowlog_get(slowlog: &Slowlog, parts: &[RespFrame]) -> Result<Resp
     let count = if parts.len() >= 3 {
         match &parts[2] {
             RespFrame::BulkString(Some(bytes)) => {
-                match String::from_utf8_lossy(bytes).parse::<usize>() {
+                match String::from_utf8_lossy(bytes).parse_redis::<usize>() {
                     Ok(n) => Some(n),
                     Err(_) => return Ok(RespFrame::error("ERR value is not an integer or out of range")),
                 }
